@@ -373,3 +373,83 @@ package trace
 //@   opt only-stated
 //@   requires tst != nil
 //@   at-call loadSidxMap requires the-ids-are-those-of-the-manifest: samehdr(arg0, parts)
+//
+//@ section C13
+//
+// The outside-fragment guard, the loop of Resolve that probes the parts outside the merge (fragment contract: this loop
+// only, from an arbitrary state). A trace may be dropped only if every outside part whose time range overlaps the trace's
+// range WIDENED BY THE GRACE (guardMin / guardMax) has been asked and answered "absent": the loop passes over a part
+// without asking only if the part lies outside that widened window.
+//@ type traceFragmentMembershipFilter
+//@   ghost lookedUp bool
+//@ func traceFragmentMembershipFilter.Lookup
+//@   assumed bloom-filter lookup of one outside part; that it was asked is recorded in a ghost flag of the filter
+//@   modifies recv.lookedUp
+//@   ensures  recv.lookedUp
+//@ func defaultTraceFragmentGuard.resolveDecision
+//@   assumed builds the decision record and updates counters
+//@ func defaultTraceFragmentGuard.reserveBloomProbe
+//@   assumed probe budget
+//@ func context.Context.Err
+//@   assumed context
+//@   pure
+//@ func defaultTraceFragmentGuard.Resolve#every-part-in-the-grace-window-is-asked
+//@   mode int
+//@   opt fragment writes callProbes
+//@   opt only-stated
+//@   requires g != nil
+//@   requires forall k :: 0 <= k && k < len(g.catalog.OutsideParts) ==> g.catalog.OutsideParts[k].Filter == nil || !g.catalog.OutsideParts[k].Filter.lookedUp
+//@   ensures  asked-every-part-in-the-window: forall k :: 0 <= k && k < len(g.catalog.OutsideParts) && !(g.catalog.OutsideParts[k].MaxTimestamp < guardMin || g.catalog.OutsideParts[k].MinTimestamp > guardMax) ==> g.catalog.OutsideParts[k].Filter != nil && g.catalog.OutsideParts[k].Filter.lookedUp
+//@   loop 0 invariant forall k :: 0 <= k && k < range_i && !(g.catalog.OutsideParts[k].MaxTimestamp < guardMin || g.catalog.OutsideParts[k].MinTimestamp > guardMax) ==> g.catalog.OutsideParts[k].Filter != nil && g.catalog.OutsideParts[k].Filter.lookedUp
+//
+// mustWriteRawBlock (the raw-copy path of a merge without sampler): the trace id of EVERY block written goes into the part's
+// trace-id bloom filter (when the part has one) - a query by trace id and the outside-fragment guard both skip a part whose
+// filter does not know the id. Thin contract: at the statement after the filter update the id has been added.
+//@ ghost var traceIDAddedToFilter bool
+//@ func filter.BloomFilter.Add
+//@   assumed pkg/filter (its own contracts are pkg/filter's); that the id was added is recorded in a ghost
+//@   modifies traceIDAddedToFilter
+//@   ensures  traceIDAddedToFilter
+//@ func tagType.copyFrom
+//@   assumed copies the tag type table
+//@ func generateBlockMetadata
+//@   assumed pooled metadata
+//@   ensures result != nil && fresh(result)
+//@ func releaseBlockMetadata
+//@   assumed pooled metadata
+//@ func blockMetadata.copyFrom
+//@   assumed copies the block metadata
+//@ func blockMetadata.getTagMetadata
+//@   assumed finds or creates the tag's metadata entry
+//@   ensures result != nil
+//@ func blockMetadata.marshal
+//@   assumed appends the metadata record
+//@   pure
+//@ func writer.MustWrite
+//@   assumed appends to a part file (its byte counter is not modelled)
+//@ func writers.getWriters
+//@   assumed finds or creates the two writers of a tag
+//@   ensures result0 != nil && result1 != nil
+//@ func generateTagMetadata
+//@   assumed pooled metadata
+//@   ensures result != nil && fresh(result)
+//@ func releaseTagMetadata
+//@   assumed pooled metadata
+//@ func tagMetadata.unmarshal
+//@   assumed parses tag metadata
+//@ func tagMetadata.marshal
+//@   assumed serialises tag metadata
+//@   pure
+//@ func blockWriter.mustFlushPrimaryBlock
+//@   assumed writes one primary block and its index entry
+//@ func bytes.BufferPool.Generate
+//@   assumed buffer pool
+//@   ensures result != nil && fresh(result)
+//@ func bytes.BufferPool.Release
+//@   assumed buffer pool
+//@ func blockWriter.mustWriteRawBlock#every-trace-id-reaches-the-filter
+//@   mode int
+//@   opt only-stated
+//@   requires bw != nil && r != nil && !traceIDAddedToFilter
+//@   modifies traceIDAddedToFilter
+//@   at-stmt "bw.tagType.copyFrom(bm.tagType)" requires the-id-of-this-block-is-in-the-part-filter: bw.traceIDFilter == nil || bw.traceIDFilter.filter == nil || traceIDAddedToFilter
